@@ -26,7 +26,7 @@
 (*        value may or may not have been taken, and the stream must stay   *)
 (*        a valid file that later calls complete.                          *)
 (***************************************************************************)
-EXTENDS SerdeModel, ContainerFile, Crc, Json, IOUtils, TLC
+EXTENDS SerdeModel, ContainerFile, Crc, SchemaDesc, Json, IOUtils, TLC
 
 Rec   == ndJsonDeserialize(IOEnv.VERIF_TRACE)
 Scope == ndJsonDeserialize(IOEnv.VERIF_SCOPE)
@@ -44,6 +44,9 @@ BuildAllowed(e) ==
        /\ h.sync = e.sync
        /\ h.pos = Len(e.header) + 1
        /\ \A i \in 1..Len(e.meta) : MetaLookup(h.meta, e.meta[i][1], 1) = e.meta[i][2]
+    \* the schema text in the header denotes the schema the values are encoded with (e.json_nodes: that text parsed back; empty when the
+    \* harness did not provide it) - whatever history of edits the schema went through before it was frozen
+    /\ (Len(e.json_nodes) > 0 => GraphDesc(e.json_nodes) = GraphDesc(Scope[e.si].nodes))
 
 RECURSIVE ConcatRange(_, _, _)
 ConcatRange(items, from, cnt) == IF cnt = 0 THEN <<>> ELSE items[from] \o ConcatRange(items, from + 1, cnt - 1)
